@@ -14,7 +14,7 @@ import (
 func init() {
 	register(&Prop{
 		ID:         "C19",
-		Decided:    "(1) Stream.dataChan is written only under dataChanMux.Lock and read under at least RLock; (2) on the expand strategy every send on the input buffer happens while the data-channel lock is held (a swap cannot strand a row): sends on a cached channel reference occur only in strategies that never expand, and expandDataChannel is called only by the expand strategy; (3) migration: the old channel is drained under the write lock, every received row is offered to the new channel, and the swap store happens under that lock after the drain; (4) in each strategy's ProcessData every path ends after exactly one of {row enqueued, input_dropped_count incremented, stop observed} and never enqueues twice; the block strategy without timeout has no drop path; (5) growth is attempted only when oldCap < MaxBufferSize and the new capacity never exceeds MaxBufferSize (when set); (6) single consumer (shared with C05) and input_count incremented before the strategy runs. Also: the migration's drain loop is left only after an attempt to receive from the old channel (empty, or the timeout arm), or because the new, still private channel is full (`k < cap(new)` false, k counting the rows sent into it) — never on a test made before trying that concerns the source, such as a row count sampled before the write lock (flow/migration#drain-until-empty). Also: after every receive from the input channel that delivered a row, processItem runs before the processing goroutine receives again or returns; rows collected into a batch are handed to processItem by a loop that cannot be left early (flow/received-row-processed).",
+		Decided:    "(1) Stream.dataChan is written only under dataChanMux.Lock and read under at least RLock; (2) on the expand strategy every send on the input buffer happens while the data-channel lock is held (a swap cannot strand a row): sends on a cached channel reference occur only in strategies that never expand, and expandDataChannel is called only by the expand strategy; (3) migration: the old channel is drained under the write lock, every received row is offered to the new channel, and the swap store happens under that lock after the drain; (4) in each strategy's ProcessData every path ends after exactly one of {row enqueued, input_dropped_count incremented, stop observed} and never enqueues twice; the block strategy without timeout has no drop path; (5) growth is attempted only when oldCap < MaxBufferSize and the new capacity never exceeds MaxBufferSize (when set); (6) single consumer (shared with C05) and input_count incremented before the strategy runs. Also: the migration's drain loop is left only after an attempt to receive from the old channel (empty, or the timeout arm), or because the new, still private channel is full (`k < cap(new)` false, k counting the rows sent into it) — never on a test made before trying that concerns the source, such as a row count sampled before the write lock (flow/migration#drain-until-empty); once a row was moved into the new channel every way out of expandDataChannel installs that channel (#installed-after-fill). Also: after every receive from the input channel that delivered a row, processItem runs before the processing goroutine receives again or returns; rows collected into a batch are handed to processItem by a loop that cannot be left early (flow/received-row-processed).",
 		NotDecided: "conservation as a count under schedules, that the send into the private larger channel cannot lose to the 5 s migration timer (the path exists in the CFG and is tolerated as 'send attempted'), consumer speed.",
 		Run:        runC19,
 	})
@@ -370,6 +370,58 @@ func runC19(a *A) {
 			}, nil)
 		}
 		a.Check(hit == nil, fname(fn)+"#swap-after-drain", swap.Pos(), "the swap happens after the drain loop", "rows are still drained after the new channel was installed")
+		// once a row has been moved into the new channel, the new channel is installed on every way out: a return
+		// that leaves it behind (an "expansion abandoned" test placed after the migration) discards the rows it holds
+		var left ssa.Instruction
+		if isMk {
+			for _, host := range hosts {
+				if host != fn {
+					continue // a helper only fills; the install is judged where the helper returns to
+				}
+				allInstrs(host, func(in ssa.Instruction) {
+					fills := false
+					switch x := in.(type) {
+					case *ssa.Send:
+						fills = resolve(x.Chan) == ssa.Value(mk)
+					case *ssa.Select:
+						for _, st := range x.States {
+							if st.Dir == types.SendOnly && resolve(st.Chan) == ssa.Value(mk) {
+								fills = true
+							}
+						}
+					case *ssa.Call:
+						// the migration done by a helper that is handed the new channel
+						if h := x.Call.StaticCallee(); h != nil && h != fn {
+							for _, arg := range x.Call.Args {
+								if arg == ssa.Value(mk) {
+									for _, hh := range hosts {
+										if hh == h {
+											fills = true
+										}
+									}
+								}
+							}
+						}
+					}
+					if !fills || left != nil {
+						return
+					}
+					if pathFromTo(in, func(y ssa.Instruction) bool { _, isRet := y.(*ssa.Return); return isRet }, nil,
+						func(y ssa.Instruction) bool {
+							st, ok := y.(*ssa.Store)
+							return ok && fieldAddrIs(st.Addr, dc) && phiLeaves(st.Val)[0] == ssa.Value(mk)
+						}) {
+						left = in
+					}
+				})
+			}
+		}
+		pos := swap.Pos()
+		if left != nil {
+			pos = left.Pos()
+		}
+		a.Check(left == nil, fname(fn)+"#installed-after-fill", pos, "after a row was moved into the new channel every way out installs that channel",
+			"a path returns after rows were moved into the new channel without installing it: the migrated rows are abandoned, neither processed nor counted")
 	})
 	a.Rule("flow/exactly-one-outcome", 3, func() {
 		for _, typ := range []string{"BlockingStrategy", "ExpansionStrategy", "DropStrategy"} {
